@@ -915,7 +915,7 @@ class Source:
                     k = names.index("for")
                     tr, ty = names[k - 1], names[k + 1]
                 else:
-                    tr, ty = None, names[0]
+                    tr, ty = None, re.sub(r"<.*$", "", names[0])      # impl<T> Type<T>: the methods of Type
                 endb = skip_balanced(t, j)
                 if not in_test:
                     self.scan(j + 1, endb - 1, ty, tr, False)
@@ -1090,6 +1090,8 @@ class Ctx:
             return "(list N)"
         if name == "Ordering":
             return "comparison"
+        if name in ("HashMap", "HashSet", "VecDeque", "BTreeMap", "BTreeSet"):
+            return "unit"        # opaque: a function that touches a value of this type is outside the subset
         if self.struct(name) is not None or self.enum(name) is not None:
             return name
         raise Unsupported("type " + name)
@@ -1470,6 +1472,8 @@ class FnTranslator:
                         return rt[2][0]
                     if m in ("is_some", "is_none"):
                         return T("bool")
+                if rt[1] == "Result" and m in ("unwrap", "expect"):
+                    return rt[2][0]
                 if is_str(rt) and m == "chars":
                     return T("slice", T("char"))
                 if rt[1] == "char" and m == "to_digit":
@@ -1776,6 +1780,8 @@ class FnTranslator:
                 return "%s_default" % name
             if len(p) == 2 and p == ["Vec", "new"]:
                 return "[]"
+            if len(p) == 2 and p == ["Vec", "with_capacity"] and len(args) == 1:
+                return "[]"
             if len(p) == 1 and self.c.struct(name) is not None:
                 return "(%s_mk%s)" % (name, "".join(" " + a for a in args))
             if ev:
@@ -1865,6 +1871,8 @@ class FnTranslator:
                         return "match %s with Some x_ => x_ | None => %s end" % (r, args[0])
                     if m in ("unwrap", "expect"):
                         return None
+                if rt[1] == "Result" and m in ("unwrap", "expect"):
+                    return None
                 if is_list(rt):
                     if m == "len":
                         return "(length %s)" % r
@@ -2253,12 +2261,15 @@ class FnTranslator:
                 if rt and rt[0] == "ty" and rt[1] == "Option" and m in ("unwrap", "expect"):
                     t = self.c.fresh()
                     return "do %s <- %s;\n%s" % (t, r, k(t))
+                if rt and rt[0] == "ty" and rt[1] == "Result" and m in ("unwrap", "expect"):
+                    t = self.c.fresh()
+                    return "do %s <- (match %s with Ok x_ => Some x_ | Err _ => None end);\n%s" % (t, r, k(t))
                 res = self.pure(("mcall", ("rawterm", r, rt), m, [("rawterm", a, None) for a in args]), env)
                 if res is None:
                     raise Unsupported("method ." + m)
                 return k(res)
             arg_es = list(e[3])
-            if rt and rt[0] == "ty" and rt[1] == "Option" and m == "expect":
+            if rt and rt[0] == "ty" and rt[1] in ("Option", "Result") and m == "expect":
                 arg_es = []
             return self.tr_list([e[1]] + arg_es, env, with_all, [None] + ptys)
         if kind == "struct":
@@ -2275,6 +2286,9 @@ class FnTranslator:
         if kind == "veclit":
             wt = want[2][0] if is_list(want) else None
             return self.tr_list(e[1], env, lambda args: k("[" + "; ".join(args) + "]"), [wt] * len(e[1]))
+        if kind == "arrayrep":
+            wt = want[2][0] if is_list(want) else None
+            return self.tr(e[1], env, lambda a: self.tr(e[2], env, lambda n: k("(repeat %s %s)" % (a, n)), T("usize")), wt)
         if kind == "cast":
             st = self.ty_of(e[1], env)
             return self.tr(e[1], env, lambda a: k(self.pure(("cast", ("rawterm", a, st), e[2]), env)))
@@ -2448,6 +2462,9 @@ class FnTranslator:
                 continue
             if v in env or v == "self":
                 free.append(v)
+        # a `return` / `?` inside the loop of a &mut self method hands back the current self
+        if self.mutself and "self" not in mut and "self" not in free and any(has_kind(p_, ("return", "try")) for p_ in parts if p_ is not None):
+            free.append("self")
         # canonical order: the order of declaration in the enclosing function (not the order of use)
         decl = ["self"] + [n for n in env if n != "self"]
         mut.sort(key=lambda v: decl.index(v) if v in decl else len(decl))
@@ -2536,7 +2553,97 @@ class FnTranslator:
     def ret_k_is_loop(self):
         return self.break_k is not None
 
+    def tr_for_mut(self, pat_, place, enum, body, env, k):
+        """for s in X.iter_mut() / for (i, s) in X.iter_mut().enumerate(): the elements are updated in place.
+        The loop runs over the old elements; the updated ones are collected in an accumulator that replaces X
+        after the loop (and, on an early return from a &mut self method, X = updated ++ current :: untouched)."""
+        pt = self.ty_of(place, env)
+        if not is_list(pt):
+            raise Unsupported("iter_mut over something that is not a slice / Vec")
+        elt = pt[2][0]
+        if has_kind(body, ("break",)):
+            raise Unsupported("break inside an iter_mut loop")
+        if enum:
+            if pat_[0] != "ptuple" or len(pat_[1]) != 2 or pat_[1][1][0] != "pbind" or pat_[1][0][0] not in ("pbind", "pwild"):
+                raise Unsupported("pattern of an iter_mut().enumerate() loop")
+            ps, pi = pat_[1][1], pat_[1][0]
+        else:
+            if pat_[0] != "pbind":
+                raise Unsupported("pattern of an iter_mut() loop")
+            ps, pi = pat_, None
+        sname = ps[1]
+        self.nloops += 1
+        name = "%s_loop%d" % (self.coq_name, self.nloops)
+        acc = "acc%d_" % self.nloops
+        env_l = dict(env)
+        env_l[acc] = T("Vec", elt)
+        env_b = dict(env_l)
+        env_b[sname] = elt
+        bound = {sname}
+        if pi is not None and pi[0] == "pbind":
+            env_b[pi[1]] = T("usize")
+            bound.add(pi[1])
+        mut, free = self.loop_frame([body], env_l, extra_bound=bound)
+        mut = [acc] + [m for m in mut if m != acc]
+        free = [f for f in free if f != acc]
+        root0 = place
+        while root0[0] in ("field", "index"):
+            root0 = root0[1]
+        restore_self = self.mutself and root0[0] == "path" and root0[1] == ["self"]
+        binders = "".join(" (%s : %s)" % (var(n), self.c.coq_ty(self.var_ty(n, env_l))) for n in free + mut)
+        mt = self.tuple_ty(mut, env_l)
+        rett = "(loopres %s %s)" % (self.c.coq_ty(self.full_ret), mt)
+        FUELARG = "@@FUEL%d@@" % self.nloops
+        call_again = "%s%s l_%s" % (name, FUELARG, "".join(" " + var(n) for n in free + mut))
+        next_iter = "let %s := (%s ++ [%s]) in\n%s" % (var(acc), var(acc), var(sname), call_again)
+        saved = (self.ret_k, self.break_k, self.continue_k)
+
+        def ret_in_loop(v):
+            if restore_self:
+                rest = "(map snd l_)" if enum else "l_"
+                root, term = self.place_update(place, "(%s ++ %s :: %s)" % (var(acc), var(sname), rest), env_b)
+                return "let %s := %s in\nSome (LoopReturn %s)" % (var(root), term, self.finish(v))
+            return "Some (LoopReturn %s)" % self.finish(v)
+        self.ret_k = ret_in_loop
+        self.break_k = lambda: "Some (LoopDone %s)" % self.tuple_of(mut)      # (no break: checked above)
+        self.continue_k = lambda: next_iter
+        fuel_before = self.uses_fuel
+        self.uses_fuel = False
+        naux = len(self.aux)
+        body_code = self.tr(body, env_b, lambda _v: next_iter)
+        body_fuel = self.uses_fuel
+        self.uses_fuel = fuel_before or body_fuel
+        fuel_arg = " fuel" if body_fuel else ""
+        body_code = body_code.replace(FUELARG, fuel_arg)
+        self.aux[naux:] = [a_.replace(FUELARG, fuel_arg) for a_ in self.aux[naux:]]
+        self.ret_k, self.break_k, self.continue_k = saved
+        if enum:
+            ipat = var(pi[1]) if pi[0] == "pbind" else "_"
+            bindpat = "let '(%s, %s) := x_ in" % (ipat, var(sname))
+            lty = "(nat * %s)%%type" % self.c.coq_ty(elt)
+        else:
+            bindpat = "let %s := x_ in" % var(sname)
+            lty = self.c.coq_ty(elt)
+        self.aux.append("Fixpoint %s%s (l_ : list %s)%s {struct l_} : option %s :=\n  match l_ with\n  | [] => Some (LoopDone %s)\n  | x_ :: l_ =>\n    %s\n%s\n  end."
+                        % (name, " (fuel : nat)" if body_fuel else "", lty, binders, rett, self.tuple_of(mut), bindpat, indent(peephole(body_code), 4)))
+        self.c.aux_names.append(name)
+        lst = self.pure(place, env)
+        if lst is None:
+            raise Unsupported("iter_mut over a computed place")
+        if enum:
+            lst = "(enumerate %s)" % lst
+        r = self.c.fresh("r")
+        x = self.c.fresh("x")
+        root, term = self.place_update(place, var(acc), env_l)
+        return ("let %s := [] in\ndo %s <- %s%s %s%s;\nmatch %s with\n| LoopReturn %s => %s\n| LoopDone %s =>\nlet %s := %s in\n%s\nend"
+                % (var(acc), r, name, fuel_arg, lst, "".join(" " + var(n) for n in free + mut), r, x, self.propagate(x),
+                   self.tuple_of(mut), var(root), term, k("tt")))
+
     def tr_for(self, pat_, it, body, env, k):
+        if it[0] == "mcall" and it[2] == "enumerate" and not it[3] and it[1][0] == "mcall" and it[1][2] == "iter_mut":
+            return self.tr_for_mut(pat_, it[1][1], True, body, env, k)
+        if it[0] == "mcall" and it[2] == "iter_mut" and not it[3]:
+            return self.tr_for_mut(pat_, it[1], False, body, env, k)
         # iterable: a slice / Vec (possibly through .iter(), & or a [lo..] slice)
         itt = self.ty_of(it, env)
         if not is_list(itt):
@@ -2873,7 +2980,7 @@ MODULES = {
     },
     "BuilderGen": {
         "files": ["automata.rs", "character_sets.rs", "smt_strings.rs", "errors.rs"],
-        "types": ["CharSet", "ClassId", "Error", "CharPartition", "StateInConstruction"],
+        "types": ["CharSet", "ClassId", "Error", "CharPartition", "StateInConstruction", "State", "Automaton", "AutomatonBuilder"],
         "consts": ["MAX_CHAR"],
         "functions": [("CharSet", None, "pick"), ("CharSet", None, "contains"), ("CharSet", None, "is_before"),
                       ("CharPartition", None, "len"), ("CharPartition", None, "get"), ("CharPartition", None, "start"),
@@ -2881,7 +2988,9 @@ MODULES = {
                       ("CharPartition", None, "try_from_iter")]
                      + [("StateInConstruction", None, f) for f in ("new", "set_default_successor", "add_transition",
                         "choose_default_successor", "remove_transitions_to_default", "cleanup", "make_partition",
-                        "make_successor")],
+                        "make_successor")]
+                     + [("CharPartition", None, "empty_complement"), ("AutomatonBuilder", None, "build"),
+                        ("AutomatonBuilder", None, "build_unchecked")],
     },
     "AutomatonGen": {
         "files": ["automata.rs", "character_sets.rs", "smt_strings.rs"],
